@@ -60,15 +60,35 @@ pub open spec fn read_wf(p: &Partition) -> bool {
     &&& !p.should_increment_offset ==> p.current_offset == 0
     // A-size: offsets stay away from 2^64 by more than one request's count
     &&& p.current_offset + 1 + u32::MAX <= u64::MAX
-    // the cache is a contiguous suffix of the log (property anchor `Partition.cache`)
-    &&& cache_msgs(p).len() <= log(p).len()
-    &&& cache_msgs(p) == log(p).subrange(log(p).len() - cache_msgs(p).len(), log(p).len() as int)
+    &&& cache_wf(p)
+}
+// The cache (property anchor `Partition.cache`: "contiguous suffix of the log kept in memory"), as the write path and
+// retention really maintain it: a contiguous run that ends at the newest message (append_messages extends it with every
+// stored batch, eviction pops from the front) and agrees with the retained log wherever the two overlap. It is NOT assumed
+// to start inside the retained log: Partition::delete_segment removes a segment from the log without trimming the cache.
+pub open spec fn cache_wf(p: &Partition) -> bool {
+    let c = cache_msgs(p);
+    c.len() > 0 ==> {
+        &&& p.segments@.len() > 0 && p.should_increment_offset
+        &&& contig(c, c[0].offset as int)
+        &&& c[0].offset + c.len() == p.current_offset + 1
+        &&& forall|i: int| 0 <= i < c.len() && (#[trigger] c[i]).offset >= first_retained(p) ==> c[i] == log(p)[c[i].offset - first_retained(p)]
+    }
 }
 // timestamp polls: a segment is skipped when its end_timestamp is below the query — sound when no message of the
-// segment is newer than end_timestamp (append_batch sets it to the newest message's timestamp; A-clock: monotone)
+// segment is newer than end_timestamp (append_batch sets it to the newest message's timestamp; A-clock: monotone).
+// The other two conjuncts are the preconditions under which unit read_segment proves the segment tier ([C02.tier.ts]):
+// buffered timestamps non-decreasing (A-clock), fewer than 2^32 buffered messages (A-size).
+pub open spec fn ts_sorted(s: Seq<RetainedMessage>) -> bool {
+    forall|i: int, j: int| 0 <= i <= j < s.len() ==> (#[trigger] s[i]).timestamp <= (#[trigger] s[j]).timestamp
+}
+pub open spec fn seg_ts_wf(s: &Segment) -> bool {
+    &&& forall|j: int| 0 <= j < seg_all(s).len() ==> (#[trigger] seg_all(s)[j]).timestamp <= s.end_timestamp
+    &&& ts_sorted(seg_buf(s))
+    &&& seg_buf(s).len() <= u32::MAX
+}
 pub open spec fn ts_wf(p: &Partition) -> bool {
-    forall|i: int, j: int| 0 <= i < p.segments@.len() && 0 <= j < seg_all(&p.segments@[i]).len()
-        ==> (#[trigger] seg_all(&p.segments@[i])[j]).timestamp <= p.segments@[i].end_timestamp
+    forall|i: int| 0 <= i < p.segments@.len() ==> seg_ts_wf(#[trigger] &p.segments@[i])
 }
 // stored consumer offsets never exceed the current offset (Partition::store_consumer_offset rejects larger ones; unit consumer_offsets)
 pub open spec fn stored_bounded(p: &Partition) -> bool {
@@ -125,6 +145,7 @@ impl Segment {
     // Segment::get_messages_by_timestamp: the first `count` messages of the segment with timestamp >= start_timestamp
     #[verifier::external_body]
     pub fn get_messages_by_timestamp(&self, start_timestamp: u64, count: usize) -> (r: Result<Vec<RetainedMessage>, IggyError>)
+        requires ts_sorted(seg_buf(self)), seg_buf(self).len() + count <= usize::MAX,
         ensures r is Ok ==> r->Ok_0@ == ts_slice_of(seg_all(self), start_timestamp as int, count as int),
     { unimplemented!() }
 }
